@@ -49,16 +49,22 @@ COQ_PROPS = "Props/C13.v"
 DRIVER_NAME = "serde"
 HARNESS = {"bin": "serde"}
 THEOREMS = [
-    "C13_de_twins: forall ty t, de_edit ty t = de_value ty t  (the two deserializer families agree as functions of (ty, tree), date-time tunnel aside)",
-    "C13_ser_twins: forall ty v, ser_value ty v = ser_edit ty v when the value has no date-time and no nested None (the two recorded defects are exactly these hypotheses)",
-    "C13_try_from: Value::try_from = tree of to_string, same hypotheses",
+    "level: the TOML value tree; a decoding route = a function of (type, tree the text parses to) (coq/Model/SerdeRoutes.v decode): t e esl edoc eim efs tvd evd = de_value; tval tvdval = to_toml_value then tv_de; ttab = to_toml_table then tv_de",
+    "C13_twin_deserializers / C13_decode_routes: for every type without char-keyed maps and EVERY tree, any two routes that succeed return equal values (up to map order); the table route needs a root with distinct keys not starting with the private key",
+    "C13_on_serialized_refuted / C13_on_serialized_value_refuted: 'every route succeeds on serialized text' is FALSE (known findings C13-tryinto-datetime-string, C13-valueser-root-tuple-variant), proved with the witnesses",
+    "C13_on_serialized_partial / C13_on_serialized_value_partial: every toml_edit-based route returns the value for every type; the toml::Value / toml::Table routes too when the serialized tree shows no date-time and no private key; the single-value text unless the root is a tuple variant",
+    "C13_try_from_refuted: Value::try_from differs from parse(to_string) on a date-time (known finding C13-tryfrom-datetime-table)",
+    "C13_try_from_partial / C13_twin_serializers: Value::try_from / Table::try_from build exactly the toml::Value (same key order) the serialized document parses to, when it shows no date-time and no private key",
 ]
 RULE = ("(type, document) pairs: documents rendered from a random value of the type in random layouts, the same with one "
         "tree mutation (extra / missing / retyped / out-of-range entry) or decoded at a mutated type; library-serialized "
         "texts of random supported values; try_from vs parse(to_string); non-trivial = type depth >= 2")
 ASSUMPTIONS = [
-    "serde_derive is represented by `dynserde`, checked on every run against real derived types (command `fidelity`)",
+    "serde_derive / serde's std impls are written into coq/Model/Ser.v, De.v as their functional spec; the same protocol is `dynserde`, checked on every run against real derived types (command `fidelity`)",
     "python-rendered documents are TOML 1.0 by construction (the harness reports `valid=`; an invalid rendering is a generator bug and fails the check)",
+    "which tree a text parses to, and that from_str / from_slice / from_document(DocumentMut | ImDocument) / Deserializer::from_str hand the same tree to toml_edit's deserializer, is below the level of the Coq statements: these routes are told apart on the implementation only (the model gives one answer for t e esl edoc eim efs, and one for tvd evd)",
+    "the model reads the tree the texts were rendered from (fourth argument of a `routes` case), not the texts",
+    "the Coq universe has no untyped toml::Value leaf (cases with it: oracle only); has_type as in C07",
 ]
 
 N_FIDELITY = 37
